@@ -73,6 +73,15 @@ def observe(dc, F):
     by = dict((d.label, d) for d in dc)
     o = {}
     o['values'] = [[d.label, [[c.label, _arr(d[c])] for c in d.main_components if c.label != 'g']] for d in dc]
+    # structure of the link bookkeeping: links between datasets only among the external links, no link listed twice
+    def internal(link):
+        try:
+            owners = set(id(c.parent) for c in list(link.get_from_ids()) + [link.get_to_id()])
+            return len(owners) == 1
+        except Exception:
+            return False
+    o['links'] = _try(lambda: [sum(1 for l in dc.external_links if internal(l)), len(dc.links) - len(set(id(l) for l in dc.links)),
+                               sorted(str(l) for l in dc.links) == sorted(set(str(l) for l in dc.links))])
     d1, d2, d3 = by.get('d1'), by.get('d2'), by.get('d3')
     if d1 is None or d2 is None or d3 is None:
         return o
@@ -139,7 +148,7 @@ def check_one(dv, cv, F, exp):
     except Exception as e:
         return ('roundtrip', 'a restored collection', 'raised %s: %s' % (type(e).__name__, str(e)[:200]))
     after = observe(dc2, F)
-    for k in ['values'] + [f for f in FEATURES if f in exp]:
+    for k in ['values', 'links'] + [f for f in FEATURES if f in exp]:
         if before.get(k) != after.get(k):
             return (k, before.get(k), after.get(k))
     return None
